@@ -24,23 +24,24 @@ for i in range(n):
     else:
         g = ctllib.Gen(rng)
         cases.append(dict(rf=rf, world=ctllib.world(nrep), events=g.history(rf, nrep, rng.randint(4, 14))))
+if len(sys.argv) > 4:
+    cases = ctllib.scenarios()
 t = time.time()
-res, outs = ctllib.run_cases(ctx, b, cases, queries=lambda l: ["bad_cases 0%%nat %s" % l])
-bad = []
-for off, vals in res:
-    for item in vlib.parse_coq_list(vals[0]):
-        f = vlib.flat(item)
-        bad.append((off + f[0], f[1], f[2]))
-print(len(cases), "cases", round(time.time() - t, 1), "s; bad", len(bad))
+res, outs = ctllib.run_cases(ctx, b, cases)
+bad, cov = ctllib.parse_bad(res)
+print(len(cases), "cases", round(time.time() - t, 1), "s; bad", len(bad), "flags-or", __import__("functools").reduce(lambda x, y: x | y, cov.values(), 0))
 seen = set()
-for c, step, field in bad:
-    key = (field, cases[c]["events"][step]["k"])
+for x in bad:
+    c, step, field = x["case"], x["step"], x["field"]
+    if not field and x["fails"]:
+        step = min(x["fails"].values())
+    key = (field, cases[c]["events"][step]["k"], tuple(sorted(x["fails"])))
     if key in seen:
         continue
     seen.add(key)
     if len(seen) > show:
         break
-    print("== case", c, "rf", cases[c]["rf"], "step", step, "field", field)
+    print("== case", c, cases[c].get("name", ""), "rf", cases[c]["rf"], "diff step", x["step"], "field", field, "oracle fails", x["fails"])
     for i, (e, ob) in enumerate(zip(cases[c]["events"], outs[c]["obs"])):
         o = dict(ob)
         reps = o.pop("reps")
@@ -50,11 +51,4 @@ for c, step, field in bad:
             for a, r in enumerate(reps):
                 print("          rep", a, json.dumps(r))
             break
-    # model's view of the same step
-    term = ctllib.case_term(cases[c], outs[c])
-    q = "let c := %s in nth %d%%nat (trace (c_n c) (init (c_rf c) (c_world c)) (c_events c)) (mkobs RInvalid [] false 0%%nat None None false [] 0 false [] [] None)" % (term, step)
-    try:
-        print("   model:", vlib.coq_eval(ctx, "dbg%d" % c, ["Ctl.Model", "Ctl.Corr", "Ctl.Oracles"], "", [q])[0])
-    except Exception as ex:
-        print("   model eval failed", str(ex)[:300])
 ctx.cleanup()
